@@ -169,6 +169,10 @@ EndVerdict(c, o) ==
 \* is the next execution of the same value - judged by the verdicts above; the field itself is internal)
 QueryVerdict(c, o) == IF o.qtok \notin {-2, c.start} THEN "query-page-state-changed" ELSE "none"
 
+\* a row the caller was handed stays what it was: rows kept by the caller (the maps of SliceMap / MapScan)
+\* and read again after the iteration still hold their own content (o.changed = how many do not)
+HeldVerdict(c, o) == IF o.changed > 0 THEN "row-changed-after-delivery" ELSE "none"
+
 \* Verdict kinds that do not contradict the property statement (it does not say whether a
 \* failed page may be asked for again, in which words the failure is reported, or how many of
 \* the rows already received must be handed over before the failure): reported as drift.
@@ -176,7 +180,8 @@ DriftKinds == {"request-after-failed-fetch", "error-not-identified", "rows-short
                "query-page-state-changed"}
 
 Verdicts(c, o) ==
-  {RowVerdict(c, o), ReqVerdict(c, o), TmplVerdict(c, o), EndVerdict(c, o), QueryVerdict(c, o)} \ {"none"}
+  {RowVerdict(c, o), ReqVerdict(c, o), TmplVerdict(c, o), EndVerdict(c, o), QueryVerdict(c, o),
+   HeldVerdict(c, o)} \ {"none"}
 
 -----------------------------------------------------------------------------
 (* 3. The driver's paging machine                                          *)
@@ -263,7 +268,7 @@ Obs(s) ==
    tmpls |-> [j \in 1 .. Len(s.reqs) |-> s.reqs[j].tmpl],
    rows |-> s.rows,
    ended |-> CASE s.st \in {"run", "abandoned"} -> "no" [] s.st = "done" -> "normal" [] OTHER -> "error",
-   err |-> s.err, exposed |-> s.exposed, qtok |-> -2]
+   err |-> s.err, exposed |-> s.exposed, qtok |-> -2, changed |-> 0]
 
 VARIABLES scen, state
 vars == <<scen, state>>
